@@ -116,11 +116,20 @@ class Ctx:
     def n(self, quick: int, thorough: int) -> int:
         return int((quick if self.quick else thorough) * self.budget_scale)
 
-    def fail(self, signature: str, description: str, replay: Dict[str, Any]):
-        # keep one (the first, usually smallest) failure per signature
-        if any(f.signature == signature for f in self.failures):
-            return
-        self.failures.append(Failure(signature, description, replay))
+    def fail(self, signature: str, description: str, replay: Dict[str, Any], size: Optional[int] = None):
+        """Record a failing input. One failure is kept per signature: the first, or the smallest
+        when `size` (any measure of the input) is given."""
+        for i, f in enumerate(self.failures):
+            if f.signature == signature:
+                old = getattr(f, "size", None)
+                if size is not None and old is not None and size < old:
+                    nf = Failure(signature, description, replay)
+                    nf.size = size
+                    self.failures[i] = nf
+                return
+        nf = Failure(signature, description, replay)
+        nf.size = size
+        self.failures.append(nf)
 
     def disagree(self, stream: str, case: Any, model: Any, impl: Any):
         if len(self.disagreements) < 20:
@@ -455,6 +464,34 @@ def finish(
 
 
 # --------------------------------------------------------------------------- misc helpers
+
+
+class Timeout(Exception):
+    pass
+
+
+class time_limit:
+    """`with time_limit(3): call_real_code()` raises Timeout if the call does not return
+    (main thread only; used so that a non-terminating implementation is a finding, not a hang)."""
+
+    def __init__(self, seconds: float):
+        self.seconds = seconds
+
+    def _raise(self, *a):
+        raise Timeout()
+
+    def __enter__(self):
+        import signal
+
+        self.old = signal.signal(signal.SIGALRM, self._raise)
+        signal.setitimer(signal.ITIMER_REAL, self.seconds)
+
+    def __exit__(self, *a):
+        import signal
+
+        signal.setitimer(signal.ITIMER_REAL, 0)
+        signal.signal(signal.SIGALRM, self.old)
+        return False
 
 
 def hx(b: bytes) -> str:
